@@ -97,7 +97,7 @@ def report(prop, res, args, extra):
         f = v["failure"]
         suffix = "" if f.get("confirmed") else " no-failing-input-found"
         lines.append("VIOLATION property=%s replay=%s%s" % (prop, os.path.relpath(path, ROOT), suffix))
-        lines.append("  obligation %s" % v["obligation"])
+        lines.append("  obligation %s%s" % (v["obligation"], (" [%s]" % f["detail"]) if f.get("detail") else ""))
         lines.append("  inputs %s -> %s" % (json.dumps(f.get("inputs"), default=str), (f.get("replay") or {}).get("outcome")))
         viol_paths.append(path)
         code = 1
